@@ -1,5 +1,5 @@
 (* C04 — property theorems only.  The model (C04/Model.v) is gomacro's untyped-constant code after the
-   fix: commits C04-1..C04-6, with go/constant modelled as exact Z/Q arithmetic. *)
+   fix: commits C04-1..C04-7 and C04-9, with go/constant modelled as exact Z/Q arithmetic. *)
 From Coq Require Import List NArith ZArith QArith Qabs Bool.
 From Verif Require Import Common.GoInt Common.GoStr C04.Model C04.Proof C04.Proof2.
 Import ListNotations.
@@ -83,6 +83,29 @@ Theorem C04_to_int_iff_integer : forall (l : lit) z, wf l -> numeric l ->
 Proof. exact to_int_spec. Qed.
 Print Assumptions C04_to_int_iff_integer.
 
+(* builtins (fix C04-7): real(x) / imag(x) of a numeric constant of any kind is accepted and is an untyped FLOAT
+   constant -- never an integer, whatever representation go/constant chose for the component -- holding exactly the
+   real / imaginary part of x; in particular real(3+2i)/2 is the exact field division of C04_quotient_exact *)
+Theorem C04_real_imag_exact : forall (f : builtin1) (x : lit), wf x -> numeric x ->
+  exists z, real_imag_untyped f x = Some z /\ wf z /\ lkind z = KFloat /\
+            (re_of z == component f x)%Q /\ (im_of z == 0)%Q.
+Proof. exact real_imag_exact. Qed.
+Print Assumptions C04_real_imag_exact.
+
+Theorem C04_real_imag_rejects_non_numeric : forall (f : builtin1) (x : lit), ~ numeric x -> real_imag_untyped f x = None.
+Proof. exact real_imag_non_numeric. Qed.
+Print Assumptions C04_real_imag_rejects_non_numeric.
+
+(* complex(x, y) is accepted iff both operands are numeric constants with a zero imaginary part; the result is the
+   untyped complex constant  re(x) + re(y) i *)
+Theorem C04_complex_exact : forall (x y : lit), wf x -> wf y ->
+  (numeric x /\ (im_of x == 0)%Q /\ numeric y /\ (im_of y == 0)%Q ->
+     exists z, complex_untyped x y = Some z /\ wf z /\ lkind z = KComplex /\
+               (re_of z == re_of x)%Q /\ (im_of z == re_of y)%Q) /\
+  (~ (numeric x /\ (im_of x == 0)%Q /\ numeric y /\ (im_of y == 0)%Q) -> complex_untyped x y = None).
+Proof. exact complex_exact. Qed.
+Print Assumptions C04_complex_exact.
+
 (* exactness composes: every accepted expression tree over well-formed literals yields a well-formed literal *)
 Theorem C04_eval_wellformed : forall e z, lits_wf e -> eval e = Some z -> wf z.
 Proof. exact eval_wf. Qed.
@@ -141,4 +164,19 @@ Example C04_ex_mismatch : eval (EBin OAdd (ELit (mkLit KString (CStr [97%N]))) (
 Proof. vm_compute. reflexivity. Qed.
 Example C04_ex_string_conv : typed_context (mkLit KInt (CInt 65)) TString true = TVStr [65%N]
   /\ typed_context (mkLit KInt (CInt 65)) TString false = TErr.
+Proof. vm_compute. split; reflexivity. Qed.
+(* finding C04-7: real(3+2i)/2 = 1.5 (was the integer division 3/2 = 1); imag('a') is the float 0; real("a") rejected *)
+Definition Im (n d : Z) := ELit (mkLit KComplex (CCplx 0 (mkQ n d))).
+Example C04_ex_real_quo : olit_eqb (eval (EBin OQuo (ECall1 BReal (EBin OAdd (I 3) (Im 2 1))) (I 2))) (Some (mkLit KFloat (CRat (mkQ 3 2)))) = true
+  /\ olit_eqb (eval (ECall1 BImag (ELit (mkLit KRune (CInt 97))))) (Some (mkLit KFloat (CRat 0))) = true
+  /\ eval (ECall1 BReal (ELit (mkLit KString (CStr [97%N])))) = None
+  /\ eval (EBin ORem (ECall1 BReal (EBin OAdd (I 7) (Im 3 1))) (I 2)) = None.
+Proof. vm_compute. repeat split; reflexivity. Qed.
+Example C04_ex_complex : olit_eqb (eval (EBin OQuo (ECplx (I 1) (I 2)) (I 2))) (Some (mkLit KComplex (CCplx (mkQ 1 2) 1))) = true
+  /\ eval (ECplx (I 1) (Im 2 1)) = None
+  /\ olit_eqb (eval (ECplx (EBin OAdd (I 1) (Im 0 1)) (F 5 2))) (Some (mkLit KComplex (CCplx 1 (mkQ 5 2)))) = true.
+Proof. vm_compute. repeat split; reflexivity. Qed.
+(* finding C04-9: a complex constant with a non-zero imaginary part, however small, is rejected by float32/float64 *)
+Example C04_ex_tiny_imag : typed_context (mkLit KComplex (CCplx 1 (mkQ 1 (10 ^ 400)))) TFloat64 true = TErr
+  /\ typed_context (mkLit KComplex (CCplx 1 0)) TFloat64 true = TVFloat 4607182418800017408.
 Proof. vm_compute. split; reflexivity. Qed.
